@@ -279,6 +279,71 @@ def _if_extent(toks, i):
     return bo, bc, None, bc
 
 
+def rule_R39_single_slice_pattern(text, log, label):
+    """`let [P] = E else { B };`  (slice patterns, unsupported by Verus) ->
+    `let __sl = E; if __sl.len() != 1 { B } let P = &__sl[0] else { B };`
+    A one-element slice pattern matches exactly the slices of length one and binds P to that element; B diverges
+    (it is the else block of a let-else), so running it at either place is the same.  Only this single-element form
+    is rewritten; any other slice pattern is left alone (and rejected by the verifier => UNDECIDED)."""
+    n = 0
+    while True:
+        toks = R.lex(text)
+        hit = None
+        for i, t in enumerate(toks[:-1]):
+            if t.kind == 'id' and t.text == 'let' and toks[i + 1].kind == 'punct' and toks[i + 1].text == '[':
+                close = R.match_close(toks, i + 1)
+                # exactly one top-level element (a trailing comma is allowed)
+                depth, commas, last_sig = 0, [], None
+                for j in range(i + 2, close):
+                    tj = toks[j]
+                    if tj.kind == 'punct' and tj.text in ('(', '[', '{'):
+                        depth += 1
+                    elif tj.kind == 'punct' and tj.text in (')', ']', '}'):
+                        depth -= 1
+                    elif tj.kind == 'punct' and tj.text == ',' and depth == 0:
+                        commas.append(j)
+                if len(commas) > 1 or (len(commas) == 1 and commas[0] != close - 1):
+                    continue
+                pat_end = commas[0] if commas else close
+                if not (toks[close + 1].kind == 'punct' and toks[close + 1].text == '='):
+                    continue
+                # expression up to `else {` at depth 0
+                j = close + 2
+                d = 0
+                els = None
+                while j < len(toks):
+                    tj = toks[j]
+                    if tj.kind == 'punct' and tj.text in ('(', '[', '{'):
+                        j = R.match_close(toks, j)
+                    elif tj.kind == 'id' and tj.text == 'else':
+                        els = j
+                        break
+                    elif tj.kind == 'punct' and tj.text == ';':
+                        break
+                    j += 1
+                if els is None or not (toks[els + 1].kind == 'punct' and toks[els + 1].text == '{'):
+                    continue
+                bclose = R.match_close(toks, els + 1)
+                if not (toks[bclose + 1].kind == 'punct' and toks[bclose + 1].text == ';'):
+                    continue
+                hit = (i, close, pat_end, els, bclose)
+                break
+        if hit is None:
+            break
+        i, close, pat_end, els, bclose = hit
+        pat = text[toks[i + 2].start:toks[pat_end - 1].end]
+        expr = text[toks[close + 2].start:toks[els - 1].end]
+        blk = text[toks[els + 1].start:toks[bclose].end]
+        n += 1
+        var = '__sl%d' % n
+        repl = 'let %s = %s; if %s.len() != 1 %s let %s = &%s[0] else %s;' % (var, expr, var, blk, pat, var, blk)
+        text = text[:toks[i].start] + repl + text[toks[bclose + 1].end:]
+        log.append(('R39', '%s: one-element slice pattern desugared' % label))
+        if n > 20:
+            raise Undecided('%s: R39 does not converge' % label)
+    return text
+
+
 def rule_R22_let_chains(text, log, label):
     """`if A && let P = E && B { T } else { F }`  (let chains, unsupported by Verus) ->
     nested `if A { match E { P => { if B { T } else { F } } _ => { F } } } else { F }`.
@@ -1053,6 +1118,7 @@ def build_unit(unit, repo, variant=None, isolate=()):
         if kind == 'fn' and spec.get('lift_nested_fns'):
             text = rule_R33_lift_nested_fns(text, ilog, item_id)
         if kind in ('fn', 'impl'):
+            text = rule_R39_single_slice_pattern(text, ilog, item_id)
             text = rule_R22_let_chains(text, ilog, item_id)
         if kind == 'fn':
             text = rule_R16_mut_self(text, ilog, item_id)
